@@ -7,6 +7,10 @@ import fvm
 def plan(tier):
     src = ['fiber_mutex.c'] + fvm.KERNEL_SRCS
     j = []
+    eb = 2 if tier == 'quick' else 4
+    for h in ('h_wait', 'h_raise'):
+        j += pair('e1.msig.' + h, [VERIF + '/e1/C20/msig_e1.c'], h, unwind=eb + 3, timeout=600, defines=['ENV_BUDGET=%d' % eb],
+                  meta={'engine': 'E1 cbmc-src', 'bounds': 'one real multi-signal wait/raise from an arbitrary (counter < 2^40, head in {NULL, RAISED, waiter list of <= 3 other fibers}) pair; <= %d arbitrary environment transitions, each before any atomic access (between the two loads of a snapshot, before the double-word CAS)' % eb})
     j += fvm.config('C20', 'msig_1w1r', 'msig.c', 2, 4, 'sc', srcs=src, defines=['NW=1', 'NR=1'], spec=fvm.kspec(2), bounds='multi-signal: 1 waiter, 1 raiser (contract kernel)', timeout=900)
     if tier == 'thorough':
         j += fvm.config('C20', 'msig_2w1r', 'msig.c', 3, 4, 'sc', srcs=src, defines=['NW=2', 'NR=1'], spec=fvm.kspec(3), bounds='multi-signal: 2 waiters, 1 raiser', timeout=1800, required=False)
